@@ -1322,7 +1322,8 @@ func applySwapsE1(actions []*balancer.SwapNodeAction, cur map[int64]model.ShardM
 	return vs
 }
 
-func (in *e1inst) apply(md map[string]model.ServerMetadata) bool {
+func (in *e1inst) apply(_ map[string]model.ServerMetadata) bool {
+	md := in.metadata() // after the op changed the server set: a namespace that was refused earlier may be created now, on the new servers
 	in.calls = 0
 	added, _, panicked := in.vc.VerifConfigChanged(in.config())
 	if panicked != nil {
